@@ -112,7 +112,7 @@ def gen_cfg(rng, quick=True):
     c['grainSize'] = float(10 ** rng.uniform(-1, 2))
     c['dislocationDensity'] = float(10 ** rng.uniform(11, 16))
     fk = str(rng.choice(['none', 'single', 'burst', 'random'], p=[0.3, 0.25, 0.25, 0.2]))
-    kinds = ['df', 'dfn', 'ic'] if sysk == 'binary' else ['df', 'dfn', 'gr']
+    kinds = ['df', 'dfn', 'ic', 'icp'] if sysk == 'binary' else ['df', 'dfn', 'gr']
     if fk == 'single':
         c['faults'] = [[str(rng.choice(kinds)), int(rng.integers(0, 60))]]
     elif fk == 'burst':
@@ -136,6 +136,11 @@ BASES = {
                     segments=[3.0], minDtFrac=1e-3, iterator='euler', maxsteps=80, betaFunc=2, constraints={'maxTempChange': 0.5}),
     'ternary': dict(sys='ternary', phases=['T1'], x0=[0.02, 0.01], T={'kind': 'iso', 'T': 700.0}, gammas=[0.15], segments=[3.0], minDtFrac=1e-3,
                     iterator='euler', maxsteps=80),
+    # kawin's own test systems on the pycalphad-backed thermodynamics (Al-Zr binary, Ni-Al-Cr ternary)
+    'alzr': dict(sys='alzr', phases=['AL3ZR'], x0=4e-3, T={'kind': 'iso', 'T': 723.15}, gammas=[0.1], lattice=0.405e-9, segments=[100.0], minDtFrac=1e-6,
+                 iterator='euler', maxsteps=30),
+    'nicral': dict(sys='nicral', phases=['FCC_L12'], x0=[0.098, 0.083], T={'kind': 'iso', 'T': 1073.0}, gammas=[0.023], lattice=0.352e-9, sites=['bulk'],
+                   bulkN0=1e30, segments=[10.0], minDtFrac=1e-6, iterator='euler', maxsteps=30),
     'ternary-rk4': dict(sys='ternary', phases=['T1', 'T2'], x0=[0.02, 0.02], T={'kind': 'iso', 'T': 720.0}, gammas=[0.15, 0.14], segments=[1.0],
                         minDtFrac=1e-3, iterator='rk4', maxsteps=60),
 }
@@ -145,10 +150,11 @@ def enumerated_faults(quick):
     """all single faults at the first calls of every kind (the calls of the first ~50 steps), on four base configurations"""
     out = []
     K = 50 if quick else 150
-    for name, kinds in (('binary', ['df', 'ic']), ('binary2', ['df', 'dfn', 'ic']), ('ternary', ['df', 'gr']), ('ternary-rk4', ['df', 'gr'])):
-        step = 1 if name in ('binary', 'ternary') else 3
+    for name, kinds in (('binary', ['df', 'ic', 'icp']), ('binary2', ['df', 'dfn', 'ic', 'icp']), ('ternary', ['df', 'gr']), ('ternary-rk4', ['df', 'gr']),
+                        ('alzr', ['df', 'ic', 'icp']), ('nicral', ['df', 'gr'])):
+        step = 1 if name in ('binary', 'ternary') else (3 if name in ('binary2', 'ternary-rk4') else 4)
         for k in kinds:
-            top = min(K, 12) if (k == 'ic' and name == 'binary') else K
+            top = min(K, 12) if (k in ('ic', 'icp') and name in ('binary', 'alzr')) else (min(K, 28) if name in ('alzr', 'nicral') else K)
             for i in range(0, top, step):
                 c = dict(BASES[name])
                 c['faults'] = [[k, i]]
@@ -163,11 +169,16 @@ SNAP_CFGS = [
          iterator='euler', maxsteps=400, vratio=0.8, bins=[1e-10, 2e-9, 40, 30, 60], name='snap-binary-2phase-vratio', faults=[['ic', 5], ['ic', 6], ['df', 30]]),
     # the interfacial composition of the size classes added during the run is -1 (no result), molar volumes differ: the sentinel
     # entries stay in the table behind valid ones
-    dict(BASES['binary'], name='snap-binary-sentinel-in-table', segments=[300.0], maxsteps=260, minDtFrac=1e-4, vratio=1.25, faults=[['ic', 2]], snap_stride=29),
+    dict(BASES['binary'], name='snap-binary-missing-added-classes', segments=[300.0], maxsteps=400, minDtFrac=1e-4, vratio=1.25, faults=[['ic', 2], ['icp', 3]],
+         bins=[1e-10, 1e-9, 30, 20, 60], snap_stride=29),
+    dict(BASES['binary2'], name='snap-binary-ramp-partial-results', segments=[6.0], maxsteps=200, minDtFrac=1e-4, vratio=1.25,
+         faults=[['icp', i] for i in (1, 3, 5, 7, 9, 12, 15)] + [['ic', 11]]),
     dict(sys='binary', phases=['B1'], x0=2e-2, T={'kind': 'linear', 'T0': 690.0, 'rate': 40.0, 'Tmax': 2600.0}, gammas=[0.15], segments=[60.0], minDtFrac=1e-4,
          iterator='euler', maxsteps=500, name='snap-binary-ramp-out-of-field', faults=[], constraints={'maxTempChange': 5.0}),
     dict(sys='binary', phases=['B1'], x0=2e-2, T={'kind': 'iso', 'T': 700.0}, gammas=[0.15], segments=[2.0], minDtFrac=1e-4,
          iterator='rk4', maxsteps=150, name='snap-binary-rk4', faults=[['df', 11]], betaFunc=2),
+    dict(BASES['alzr'], name='snap-alzr', maxsteps=40, faults=[['df', 9], ['icp', 1]]),
+    dict(BASES['nicral'], name='snap-nicral', maxsteps=40, faults=[['gr', 4], ['gr', 5], ['df', 12], ['gr', 20]]),
     dict(BASES['ternary'], name='snap-ternary-euler', segments=[40.0], maxsteps=300, minDtFrac=1e-4,
          faults=[['gr', i] for i in (1, 2, 9, 10, 11, 60)] + [['df', 4], ['dfn', 33]]),
     dict(BASES['ternary-rk4'], name='snap-ternary-rk4', segments=[2.0], maxsteps=80, minDtFrac=1e-4, faults=[['gr', i] for i in range(6, 30, 5)] + [['df', 17]]),
@@ -205,6 +216,8 @@ def comp_class(cfg):
     by the alloy composition: theorem C03_composition_le_initial / C03_composition_upper_refuted)"""
     x0 = np.atleast_1d(cfg['x0'])
     for ph in cfg['phases']:
+        if ph not in XB:
+            continue
         xb = XB[ph]
         if any(x0[e] > xb[e] for e in range(len(xb))):
             return 'alloy richer in solute than a precipitate phase'
@@ -337,10 +350,18 @@ def lookup_term(rep, rec):
     return 'check03_lookup %s %s %s %s %s %s' % (boollit(rep), ql(rec['xa']), ql(rec['xb']), natlit(rec['rdfi']), ql(rec['ta']), ql(rec['tb']))
 
 
-def gbin_term(rep, rec):
+def fill_term(rec):
+    return 'check03_fill %s %s %s %s %s' % (natlit(rec['start']), ql(rec['xa']), ql(rec['xb']), ql(rec['ia']), ql(rec['ib']))
+
+
+def gbin_term(rep, rec, tables):
     ratio = rec['VmA'] / rec['VmB']
-    return 'check03_growth %s %s %s %s %s %s %s %s %s %s %s %s %s %s %s' % (
-        RT, boollit(rep), boollit(rec['enabled']), ql(rec['ohm']), ql(rec['effd']), natlit(rec['rdfi']), qlit(rec['x']), qlit(ratio),
+    # the interpolation tables of EffectiveDiffusionFunctions are the same object for every call of a run: shipped once per file
+    key = hashlib.sha1(np.asarray(rec['ohm']).tobytes() + np.asarray(rec['effd']).tobytes()).hexdigest()[:10]
+    if key not in tables:
+        tables[key] = (rec['ohm'], rec['effd'])
+    return 'check03_growth %s %s %s %s %s %s %s %s' % (
+        RT, boollit(rep), boollit(rec['enabled']), 'OHM_' + key, 'EFFD_' + key, natlit(rec['rdfi']), qlit(rec['x']), qlit(ratio)) + ' %s %s %s %s %s %s %s' % (
         qlit(rec['D']), qlit(float(rec['effd'][-2])), ql(rec['kin']), ql(rec['bounds']), ql(rec['xa']), ql(rec['xb']), ql(rec['out']))
 
 
@@ -456,26 +477,32 @@ def corpus_cfgs():
 
 def run(ctx):
     quick = ctx.quick
-    ctx.cov['rule'] = ('runs of PrecipitateModel on closed-form binary / ternary backends behind a fault wrapper (setThermodynamics): corpus inputs, '
-                       'every single fault (driving force, growth result, interfacial composition) at the first 50 calls of four base '
-                       'configurations, and random configurations (1-3 phases, 5 site types, 4 shapes, molar-volume ratio, fixed / adaptive grids, '
+    ctx.cov['rule'] = ('runs of PrecipitateModel on closed-form binary / ternary backends and on the pycalphad-backed Al-Zr / Ni-Al-Cr test systems behind a '
+                       'fault wrapper (setThermodynamics): corpus inputs, every single fault (driving force, growth result, interfacial composition, '
+                       'whole or partial) at the first calls of six base configurations, and random configurations (1-3 phases, 5 site types, 4 shapes, molar-volume ratio, fixed / adaptive grids, '
                        'dt constraints, Euler / RK4, 1-3 solve segments, iso / hot / ramps / tables, min/maxDtFrac, PSD recording) x fault schedules '
                        '(none, single, burst, random); the well-formedness predicate is evaluated after EVERY accepted step; a run is non-trivial when '
                        'precipitates formed; distinct by hash of the configuration; recorded steps / calls are re-executed by the Coq model')
+    tm = {}
+    t_ = time.time()
     tr_ok, tr_info, failed = translate_and_prove(ctx)
+    tm['translate_and_prove'] = round(time.time() - t_, 1)
     rep = True            # the model variant of the current (repaired) source
 
     # ---- 1. search: corpus, enumerated single faults, random configurations -----------------------------------------
     corpus = corpus_cfgs()
     enum = enumerated_faults(quick)
-    nrand = 70 if quick else 900
+    nrand = 120 if quick else 900
     rand = []
     for i in range(nrand):
         c = gen_cfg(ctx.rng, quick)
         c['name'] = 'random:%d' % i
         rand.append(c)
     cfgs = corpus + enum + rand
+    t_ = time.time()
     results = run_many(cfgs, snapshots=False)
+    tm['search_runs'] = round(time.time() - t_, 1)
+    t_ = time.time()
     found = {}
     for c, r in zip(cfgs, results):
         ctx.count(cfg_key(c), bool(r.get('nontrivial')))
@@ -523,8 +550,13 @@ def run(ctx):
         c['recordPSD'] = False
         snap_cfgs.append(c)
         k += 1
+    tm['shrink_and_report'] = round(time.time() - t_, 1)
+    t_ = time.time()
     sres = run_many(snap_cfgs, snapshots=True)
+    tm['snapshot_runs'] = round(time.time() - t_, 1)
+    t_ = time.time()
     terms, tags = [], []
+    tables = {}
     for c, r in zip(snap_cfgs, sres):
         ctx.cov['traces_validated_against_impl'] += 1
         for v in violations_of(c, r):
@@ -534,7 +566,7 @@ def run(ctx):
         if 'meta' not in r:
             continue
         meta = r['meta']
-        per = 8 if quick else 30
+        per = 5 if quick else 30
         for s in r['snaps'][:per]:
             if finite_snap(s):
                 terms.append(step_term(meta, s))
@@ -543,9 +575,13 @@ def run(ctx):
             if allfinite(rec, ['xa', 'xb', 'ta', 'tb']):
                 terms.append(lookup_term(rep, rec))
                 tags.append(('lookup', c['name'], rec['p'], c))
+        for rec in r['recs'].get('fill', [])[:6 if quick else 30]:
+            if allfinite(rec, ['xa', 'xb', 'ia', 'ib']):
+                terms.append(fill_term(rec))
+                tags.append(('fill', c['name'], rec['p'], c))
         for rec in r['recs']['gbin'][:4 if quick else 24]:
             if allfinite(rec, ['x', 'xa', 'xb', 'bounds', 'kin', 'D', 'out']):
-                terms.append(gbin_term(rep, rec))
+                terms.append(gbin_term(rep, rec, tables))
                 tags.append(('growth', c['name'], rec['p'], c))
         for rec in r['recs']['gmulti'][:14 if quick else 80]:
             if allfinite(rec, ['dG', 'dens', 'kin', 'prevG', 'yA', 'yB', 'rate', 'eqA', 'eqB', 'backend']):
@@ -563,7 +599,12 @@ def run(ctx):
     indet = 0
     ncorr = {}
     if terms:
-        res = ctx.coq_eval('corr', HEADER, terms)
+        # spread the expensive terms over the shards
+        order = sorted(range(len(terms)), key=lambda i: hashlib.sha1(terms[i].encode()).hexdigest())
+        terms = [terms[i] for i in order]
+        tags = [tags[i] for i in order]
+        header = HEADER + ''.join('Definition OHM_%s : list Q := %s.\nDefinition EFFD_%s : list Q := %s.\n' % (k, ql(v[0]), k, ql(v[1])) for k, v in sorted(tables.items()))
+        res = ctx.coq_eval('corr', header, terms)
         for tag, term, val in zip(tags, terms, res):
             kind, name, idx, c = tag
             ncorr[kind] = ncorr.get(kind, 0) + 1
@@ -595,6 +636,9 @@ def run(ctx):
                 ok_r, ok_a, ok_b, rmod = val
                 if not (ok_r and ok_a and ok_b):
                     dis.append((tag, 'lookup table post-processing: RdrivingForceIndex / table differ from the model (model index %d)' % rmod))
+            elif kind == 'fill':
+                if not (val[0] and val[1]):
+                    dis.append((tag, 'filling of missing interfacial compositions differs from the model'))
             elif kind == 'growth':
                 v, tie = val
                 if tie:
@@ -614,6 +658,8 @@ def run(ctx):
             elif kind == 'getDt':
                 if not val:
                     dis.append((tag, 'getDt is not the minimum rule of the model'))
+    tm['coq_correspondence'] = round(time.time() - t_, 1)
+    ctx.notes['timing_s'] = tm
     ctx.notes['correspondence_cases'] = ncorr
     ctx.notes['indeterminate_near_tie'] = indet
     ctx.notes['disagreements'] = len(dis)
